@@ -1057,6 +1057,8 @@ class Transiter(Interrupter):
         #exits, enters = framing.Framer.Uncommon(framer.actives,far.outline)
         #find uncommon and common entry and exit lists associated with transition
         exits, enters, reexens = framing.Framer.ExEn(framer.actives, far)
+        if exits:  # frames suspended by a conditional aux exit with its main frame
+            exits = exits + framer.suspendeds()
 
         #check enters, if successful, perform transition
         if not framer.checkEnter(enters, exits):
